@@ -19,7 +19,7 @@ from bs4.builder._htmlparser import HTMLParserTreeBuilder
 RULE = ("trees: the property's shape families (pure chain, text inside, trailing text, trailing sibling, leading text, "
         "alternating names, attributes at every level, repeated sub-structure, pre/script nesting) and seeded random "
         "nesting templates (random siblings before/after the hole, random names/attributes/comments), each at depth d and "
-        "2d (d=120 quick, 200 thorough) and at 3000 (quick) / 3000 and 6000 (thorough); seeded random small documents "
+        "2d (d=80 quick, 200 thorough) and at 1500 (quick) / 3000 and 6000 (thorough); seeded random small documents "
         "(<=40 elements) and hand-built trees of directly constructed Tag objects (unknown XML-ness, prefixes, empty "
         "strings). operations: parse, decode/encode/prettify/decode_contents/str under minimal, html, None and object "
         "formatters, copy, deepcopy, pickle dumps/loads, get_text/stripped_strings/.string, find_all/find on 20 criteria "
@@ -884,13 +884,44 @@ def corpus(ctx):
         ctx.fail({"corpus": "C11-is-xml", "tree": "Tag(name='a') nested %d deep" % d}, "operation raised %s" % err, err, "no exception", tag="raises")
 
 
+SEARCH_BUDGET_S = 200      # the escalated search after a broken proof / tie (quick tier) stops after about this long
+
+
+def search(ctx):
+    """escalated search for a concrete failing input (the tie or a proof no longer checks): the oracle only,
+    with budgets between quick and thorough, under a wall-clock cap"""
+    import time
+    rng = ctx.rng
+    t0 = time.time()
+    left = lambda: SEARCH_BUDGET_S - (time.time() - t0)
+    tpls = [random_template(rng) for _ in range(6)]
+    fams = [(n, (lambda k, n=n: family_markup(n, k))) for n in FAMILIES] + \
+           [("template%r" % (t,), (lambda k, t=t: template_markup(t, k))) for t in tpls]
+    done = 0
+    for name, mk in fams:                      # growth from 150 to 300 (quick compares 100 and 200)
+        if left() < 0 or ctx.failures:
+            break
+        oracle_growth(ctx, name, mk, 150)
+        done += 1
+    for name, mk in fams[:len(FAMILIES)]:      # twice as far beyond the recursion limit as the quick tier
+        if left() < 0 or ctx.failures:
+            break
+        oracle_family(ctx, name, mk, 3000, profile=False, light=True)
+        done += 1
+    ctx.notes.append("escalated search: oracle only (growth 150->300, depth 3000), %d family runs in %.0f s (cap %d s)"
+                     % (done, time.time() - t0, SEARCH_BUDGET_S))
+
+
 def run(ctx):
     rng = ctx.rng
     with warnings.catch_warnings():
         warnings.simplefilter("ignore")
+        if ctx.search_mode and ctx.tier != "thorough":
+            search(ctx)
+            return
         corpus(ctx)
         batch = Batch(ctx)
-        d = 200 if ctx.thorough else 100
+        d = 200 if ctx.thorough else 80
         tpls = [random_template(rng) for _ in range(12 if ctx.thorough else 3)]
         fams = [(n, (lambda k, n=n: family_markup(n, k))) for n in FAMILIES] + \
                [("template%r" % (t,), (lambda k, t=t: template_markup(t, k))) for t in tpls]
@@ -911,18 +942,18 @@ def run(ctx):
         # 3. correspondence with the model
         #    a. families at small and larger depth (every operation, targets: document, middle, innermost, a string)
         for name, mk in fams:
-            for k in ((2, 5, d) if ctx.thorough else (3, 30)):
+            for k in ((2, 5, d) if ctx.thorough else (3, 24)):
                 markup = mk(k)
                 check_parse(ctx, batch, "%s depth %d" % (name, k), markup)
                 check_tree(ctx, batch, "%s depth %d" % (name, k), lambda markup=markup: BeautifulSoup(markup, "html.parser"),
                            family_targets, few=(k > 10), edits=True)
             batch.flush()
         #    b. random small documents, random targets
-        for i in range(400 if ctx.thorough else 40):
+        for i in range(400 if ctx.thorough else 30):
             markup = random_doc(rng)
             check_parse(ctx, batch, "random document %r" % markup, markup, nontrivial=("<" in markup))
             check_tree(ctx, batch, "random document %r" % markup, lambda markup=markup: BeautifulSoup(markup, "html.parser"),
-                       pick_targets(rng, 3), few=False, edits=True, nontrivial=("<" in markup))
+                       pick_targets(rng, 3 if ctx.thorough else 2), few=False, edits=True, nontrivial=("<" in markup))
             if i % 20 == 19:
                 batch.flush()
             if i == 3:
